@@ -62,10 +62,11 @@ def specFrame (t : RSpec) (f : Frame) : Option (RSpec × Option DataEv) :=
   let endStream := decide (some delivered' = final')
   some ({ known := known', delivered := delivered', final := final', hi := hi' }, mkEvent out endStream)
 
-/-- A RESET_STREAM arrives.  `none` = FinalSizeError (state unchanged). -/
+/-- A RESET_STREAM arrives.  `none` = FinalSizeError (state unchanged).  An
+    accepted reset fixes the final size and counts as "seen up to final size". -/
 def specReset (t : RSpec) (finalSize : Nat) : Option RSpec :=
   match t.final with
-  | some z => if finalSize ≠ z then none else some t
-  | none => some { t with final := some finalSize }
+  | some z => if finalSize ≠ z then none else some { t with hi := max t.hi finalSize }
+  | none => some { t with final := some finalSize, hi := max t.hi finalSize }
 
 end AQ.Stream
